@@ -6,6 +6,7 @@ CONSTANTS
   DiagCap = FALSE
   PathOnly = FALSE
   AbruptExit = FALSE
+  SpawnOnFull = FALSE
   StartMain = TRUE
   URIs <- ThreeUris
   Alphabet <- DocAlphabet
